@@ -14,7 +14,15 @@ HERE = os.path.dirname(os.path.abspath(__file__))
 
 
 def outcome_of(text):
-    v = hist.execute(text)
+    """One trace in a FRESH interpreter (a violation may be about state that outlives an instance, so the process
+    that minimises must not carry any)."""
+    p = subprocess.run([sys.executable, '-c',
+                        'import sys, json; sys.path.insert(0, %r); from pysim import hist; '
+                        'v = hist.execute(sys.stdin.read()); print(json.dumps(v))' % os.path.dirname(HERE)],
+                       input=text, stdout=subprocess.PIPE, stderr=subprocess.PIPE, text=True, timeout=600)
+    if p.returncode != 0:
+        return K.Outcome('error', 'harness', p.stderr[-1500:])
+    v = json.loads(p.stdout.strip().splitlines()[-1])
     if v[0]:
         return K.Outcome('violated', v[1], v[2], v[3])
     return K.Outcome('ok')
